@@ -411,6 +411,9 @@ class Analysis:
     # ------------------------------------------------------------------ expressions
     def rel(self, op, a, b):
         T = self.T
+        if a == b:
+            # a value compared with itself constrains nothing
+            return T.mk('bool', op in ('==', '<=', '>='))
         # three-way comparison results (cmp / cmpabs / sgn) against an integer constant: only the
         # sign is specified, so translate "sign OP c" into the set of admitted signs
         for (x, y, o2) in ((a, b, op), (b, a, SWAP[op])):
